@@ -892,14 +892,12 @@ func (stmt *CreateIndexStmt) execAt(ctx context.Context, tx *SQLTx, params map[s
 	if stmt.unique && table.primaryIndex != nil {
 		// check table is empty
 		pkPrefix := MapKey(tx.sqlPrefix(), MappedPrefix, EncodeID(table.id), EncodeID(table.primaryIndex.id))
-		_, _, err := tx.getWithPrefix(ctx, pkPrefix, nil)
-		if errors.Is(err, store.ErrIndexNotFound) {
-			return nil, ErrTableDoesNotExist
-		}
-		if err == nil {
-			return nil, ErrLimitedIndexCreation
-		} else if !errors.Is(err, store.ErrKeyNotFound) {
+		exists, err := tx.existsLiveKeyWithPrefix(ctx, pkPrefix)
+		if err != nil {
 			return nil, err
+		}
+		if exists {
+			return nil, ErrLimitedIndexCreation
 		}
 	}
 
@@ -1768,11 +1766,14 @@ func (tx *SQLTx) doUpsert(ctx context.Context, pkEncVals []byte, valuesByColID m
 
 		// no other equivalent entry should be already indexed
 		if index.IsUnique() {
-			_, valRef, err := tx.getWithPrefix(ctx, smkey, nil)
-			if err == nil && (valRef.KVMetadata() == nil || !valRef.KVMetadata().Deleted()) {
-				return store.ErrKeyAlreadyExists
-			} else if !errors.Is(err, store.ErrKeyNotFound) {
+			// every live entry under the value prefix counts, not only the first key
+			// (the first one may be the tombstone of a row that moved to another value)
+			exists, err := tx.existsLiveKeyWithPrefix(ctx, smkey)
+			if err != nil {
 				return err
+			}
+			if exists {
+				return store.ErrKeyAlreadyExists
 			}
 		}
 
